@@ -1572,7 +1572,9 @@ int QSexact_solver (mpq_QSdata * p_mpq,
 			{
 				mpq_EGlpNumFreeArray (y_mpq);
 				y_mpq = mpq_EGlpNumAllocArray (p_mpq->qslp->nrows);
-				EGcallD(mpq_QSget_infeas_array (p_mpq, y_mpq));
+				/* QSexact_basis_status has just rebuilt and factored p_mpq->lp for this
+				 * basis: the certificate is read from it directly */
+				EGcallD(mpq_ILLsimplex_infcertificate (p_mpq->lp, y_mpq));
 				if (QSexact_infeasible_test (p_mpq, y_mpq))
 				{
 					infeasible_output (p_mpq, y, y_mpq);
@@ -1745,7 +1747,9 @@ int QSexact_solver (mpq_QSdata * p_mpq,
 				{
 					mpq_EGlpNumFreeArray (y_mpq);
 					y_mpq = mpq_EGlpNumAllocArray (p_mpq->qslp->nrows);
-					EGcallD(mpq_QSget_infeas_array (p_mpq, y_mpq));
+					/* QSexact_basis_status has just rebuilt and factored p_mpq->lp for this
+					 * basis: the certificate is read from it directly */
+					EGcallD(mpq_ILLsimplex_infcertificate (p_mpq->lp, y_mpq));
 					if (QSexact_infeasible_test (p_mpq, y_mpq))
 					{
 						infeasible_output (p_mpq, y, y_mpq);
